@@ -118,7 +118,18 @@ def run_case(case: dict) -> dict:
         p = projmodel.ensure_cls(rename_project(case["p"], rnd))
         m = projmodel.materialise(p, root, rnd, outside=d / "outside")
         projmodel.set_faults(m["faults"])
-        base = ["--root", str(root), "--no-multiprocessing"]
+        gopt = []
+        if case.get("meson"):
+            # part of the tree becomes a Meson subproject, and every command is told to include subprojects
+            tops = sorted(x for x in root.iterdir() if x.is_dir() and x.name not in ("LICENSES", ".reuse", "subprojects"))
+            if tops:
+                (root / "subprojects").mkdir(exist_ok=True)
+                shutil.move(str(tops[0]), str(root / "subprojects" / tops[0].name))
+            else:
+                (root / "subprojects" / "lib").mkdir(parents=True)
+                (root / "subprojects" / "lib" / "nolicence.py").write_text("# SPDX-FileCopyrightText: 2020 Sub Project\nx = 1\n")
+            gopt = ["--include-meson-subprojects"]
+        base = ["--root", str(root), "--no-multiprocessing", *gopt]
         runs = {}
         for fmt in ("json", "plain", "lines", "quiet"):
             runs[fmt] = core.run_reuse([*base, "lint", "--" + fmt])
@@ -169,7 +180,7 @@ def run_case(case: dict) -> dict:
                 sub = root / (dirs[0] if dirs else ".")
                 cwd, rootarg = sub, os.path.relpath(root, sub)
                 args = [os.path.relpath(root / f, sub) for f in F]
-            r = core.run_reuse(["--root", rootarg, "--no-multiprocessing", "lint-file", *args], cwd=cwd)
+            r = core.run_reuse(["--root", rootarg, "--no-multiprocessing", *gopt, "lint-file", *args], cwd=cwd)
             if r["exc"] or r["exit"] not in (0, 1):
                 ev["crash"] = "lint-file: " + (r["exc"] or r["err"] or str(r["exit"]))[-400:]
                 continue
@@ -203,6 +214,10 @@ def run(ctx: core.Ctx) -> int:
                        extra=["-seed", str(ctx.seed + 131)])
     for c in c06.make_cases(inv, rnd, 1, len(cases) + 1, ctx.seed):
         cases.append({"tid": c["tid"], "p": c["p"], "label": c["label"], "seed": c["seed"]})
+    for k_, c_ in enumerate(cases):
+        if k_ % 5 == 2:
+            c_["meson"] = True
+            c_["label"] = json.dumps({"meson-subproject-included": json.loads(c_["label"])})
     events = ctx.pmap(run_case, cases, chunksize=8)
     for ev in events[:: max(1, len(events) // 3)][:3]:
         ctx.samples.append({"case": json.loads(ev["label"]), "exits": ev.get("exits"), "plain": ev.get("plain"),
